@@ -45,8 +45,15 @@ def schedule_search(ctx, prop, bad, lean_failed):
         body += ["failing input: Miri litmus program `%s` with -Zmiri-seed=%d:" % (r["program"], r["seed"]), "  replay: " + r["cmd"], r["report"]]
         ctx.violation("miri", "\n".join(body), True)
     else:
-        body.append("search: Miri runs found no race")
-        ctx.defer_nfi("\n".join(body))
+        nat = miri.run_native(ctx, miri.programs_for(prop))
+        nbad = miri.failing(nat)
+        if nbad:
+            r = nbad[0]
+            body += ["failing input: litmus program `%s` run natively (%d rounds, real threads):" % (r["program"], r.get("rounds", 0)), "  replay: " + r["cmd"], r["report"]]
+            ctx.violation("native", "\n".join(body), True)
+        else:
+            body.append("search: Miri runs and native stress runs found no race")
+            ctx.defer_nfi("\n".join(body))
 
 
 def run(ctx):
